@@ -47,6 +47,7 @@ func genModes(t *rapid.T) kit.Modes {
 	if m.Link == "unix" {
 		m.Poll = rapid.Bool().Draw(t, "poll")
 	}
+	kit.DrawBuffers(t, &m)
 	return m
 }
 
